@@ -1122,6 +1122,14 @@ func runMuxScenario(t *testing.T, sc *MuxScenario, tape *core.Tape) (mr *muxRun)
 		}
 		for i, ops := range sc.Registrars {
 			g := &registrar{mr: mr, idx: i, ops: ops, slot: sim.NewSlot("reg"+strconv.Itoa(i), 2)}
+			for k, op := range ops {
+				if op.Fail == "cancel-mid" {
+					if g.kslots == nil {
+						g.kslots = map[int]*core.Slot{}
+					}
+					g.kslots[k] = sim.NewSlot("reg"+strconv.Itoa(i)+".k"+strconv.Itoa(k), 1)
+				}
+			}
 			mr.registrars = append(mr.registrars, g)
 		}
 		for _, g := range mr.registrars {
